@@ -165,8 +165,10 @@ def run_property(prop, tier, jobs, level_note='', assumptions=(), outside=(), wo
     os.makedirs(os.path.join(VERIF, 'evidence'), exist_ok=True)
     for j in jobs:
         j.setdefault('mandatory', True)
+        if not j['mandatory']:
+            j.setdefault('budget_s', 150 if tier == 'quick' else 600)      # optional deeper shapes (queued after the mandatory ones): claimed only if they finish in time
     # long shapes first (LPT scheduling of the worker pool): tier B vectors, then by number of items
-    jobs.sort(key=lambda j: (0 if j['id'].startswith('tierB') else 1, -int(j['params'].get('n', j['params'].get('L', 0)) or 0)))
+    jobs.sort(key=lambda j: (0 if j['mandatory'] else 1, 0 if j['id'].startswith('tierB') else 1, -int(j['params'].get('n', j['params'].get('L', 0)) or 0)))
     known_builder = make_known_builder(prop)
     if tier == 'thorough' and os.environ.get('VERIF_CROSSCHECK', '1') != '0':
         # the obligations of the smallest shapes are re-decided by two other solver binaries (cross-check, not the deciding step)
